@@ -376,6 +376,7 @@ def run(rep: Report, prog: Program, tier: str) -> None:
 
     pump_rule(rep, prog)
     start_eval_rule(rep, prog)
+    tables_rule(rep, prog)
 
 
 def pump_rule(rep: Report, prog: Program) -> None:
@@ -584,3 +585,52 @@ def start_eval_rule(rep: Report, prog: Program) -> None:
             rep.fail(mk_finding(prog, PROP, RULE, st_f, st_f.node, f"[{label}] " + "; ".join(problems), construct="start: " + problems[0][:60]))
         else:
             rep.ok(RULE, label, sample=" -> ".join(log))
+
+
+def tables_rule(rep: Report, prog: Program) -> None:
+    """C04-TABLES: (a) the fingerprint algorithm table maps each RFC 8122 hash-function name to that hash function (both the fingerprints this side
+    announces and the comparison in _validate_peer_identity go through it, so two aiortc peers agree with each other whatever it says - only the table itself
+    shows a wrong entry); (b) the buffer handed to SSL.Connection.recv() is at least as large as the records _write_ssl() emits (bio_read size): a shorter read
+    truncates an application message and shifts every message after it."""
+    RULE = "C04-TABLES"
+    rep.rule(RULE, "fingerprint hash table follows RFC 8122 names; the DTLS read size covers the largest record written", min_instances=4)
+    mod = prog.module("rtcdtlstransport")
+    tbl = mod.assigns.get("X509_DIGEST_ALGORITHMS")
+    if not isinstance(tbl, ast.Dict):
+        raise AnalysisError("X509_DIGEST_ALGORITHMS table not found")
+    anchor = prog.func("rtcdtlstransport.RTCDtlsTransport._validate_peer_identity")
+    for k, v in zip(tbl.keys, tbl.values):
+        name = getattr(k, "value", None)
+        cls_name = unparse(v.func).split(".")[-1] if isinstance(v, ast.Call) else unparse(v).split(".")[-1]
+        want = None
+        if isinstance(name, str) and name.lower().startswith("sha-"):
+            want = "SHA" + name[4:].replace("-", "_").upper()
+        if want is None:
+            raise AnalysisError(f"C04-TABLES: no oracle for fingerprint algorithm {name!r}")
+        if cls_name == want:
+            rep.ok(RULE, f"fingerprint algorithm {name!r} -> {cls_name}", sample="RFC 8122 / RFC 4572 hash function textual name")
+        else:
+            rep.fail(mk_finding(prog, PROP, RULE, anchor, v, f"fingerprint algorithm {name!r} is computed with {cls_name}, RFC 8122 means {want}: a genuine {name} fingerprint of the peer certificate is "
+                                "rejected and a value that is not its fingerprint is accepted", construct=f"fingerprint algorithm {name}"))
+    recv_f = prog.func("rtcdtlstransport.RTCDtlsTransport._recv_next")
+    wr_f = prog.func("rtcdtlstransport.RTCDtlsTransport._write_ssl")
+
+    def size_of(fi, meth):
+        out = []
+        for n in ast.walk(fi.cls.node):
+            if isinstance(n, ast.Call) and unparse(n.func) == f"self._ssl.{meth}" and n.args:
+                try:
+                    out.append((n, Evaluator(prog, fi.module, None, {}).ev(n.args[0])))
+                except Unknown:
+                    out.append((n, None))
+        return out
+    reads, writes = size_of(recv_f, "recv"), size_of(wr_f, "bio_read")
+    if not reads or not writes or any(v is None for _, v in reads + writes):
+        raise AnalysisError(f"C04-TABLES: DTLS read / write sizes not resolved: {[v for _, v in reads]} / {[v for _, v in writes]}")
+    biggest = max(v for _, v in writes)
+    for n, v in reads:
+        if v >= biggest:
+            rep.ok(RULE, f"self._ssl.recv({v}) covers records of up to {biggest} bytes", sample=unparse(n))
+        else:
+            rep.fail(mk_finding(prog, PROP, RULE, recv_f, n, f"application data is read with a {v}-byte buffer but _write_ssl() emits records of up to {biggest} bytes: a longer message arrives "
+                                "truncated and its tail is delivered as the start of the next one", construct="DTLS read size smaller than the record size written"))
